@@ -33,6 +33,11 @@ CFG = {
     'trA': [1, 3, 4, 7, 9],               # trap pair: union [1,3,4,7,9,11] has as many entries as range(1,12,2)
     'trB': [1, 3, 7, 9, 11],              # but is not that range; intersection [1,3,7,9] ~ range(1,10,2)+1
     'big': list(range(1000, 1040, 4)),    # large numbers, stride 4
+    'eqA': [1, 2, 4, 7, 9, 10, 13, 16],     # trap pair: same length, same first and last entry,
+    'eqB': [1, 3, 4, 8, 9, 11, 13, 16],     # different interior (common: 1,4,9,13,16)
+    'eqR': list(range(1, 17, 3)) + [],      # range 1,4,..,16 with the same end points as eqA/eqB (6 entries)
+    'eqC': list(range(1, 25, 2)),           # range 1..23 step 2 (12 entries) and
+    'eqD': [1, 2, 5, 7, 9, 10, 13, 15, 17, 20, 21, 23],   # an irregular list with the same length and end points (and (last-first) % (n-1) == 0)
     'c20': list(range(1, 21)),            # longer contiguous chain
     'st3': list(range(4, 21, 3)),         # coarser range inside c20 whose size does not tile it (20/6 != 3)
 }
@@ -72,6 +77,8 @@ LAYOUTS_QUICK = [
     {'A|r1': 'trB'},
     {'A|r1': 'c20'},
     {'A|r1': 'st3'},
+    {'A|r1': 'eqA'},
+    {'A|r1': 'eqB'},
 ]
 LAYOUTS_MORE = [
     {'A|r1': 's3'},
